@@ -60,7 +60,7 @@ def _has_quant(t):
 class Engine(Evaluator):
     BUILTINS = {'len', 'min', 'max', 'abs', 'int', 'range', 'list', 'tuple', 'isinstance', 'slice', 'all', 'any',
                 'implies', 'old', 'enumerate', 'zip', 'ceil', 'floor', 'float', 'bool', 'str', 'dict', 'getattr',
-                'round', 'iff', 'sorted', 'ite', 'map', 'super', 'fresh_obj', 'same_fields_except', 'is_fresh', 'psum', 'ops_fold', 'op_row', 'nblocks', 'flat', 'elems'}
+                'round', 'iff', 'sorted', 'ite', 'map', 'super', 'fresh_obj', 'same_fields_except', 'is_fresh', 'psum', 'ops_fold', 'op_row', 'nblocks', 'flat', 'elems', 'is_list', 'is_none'}
 
     def __init__(self, spec_module_path=None):
         self.obs = []
@@ -207,9 +207,11 @@ class Engine(Evaluator):
         while cls and cls not in seen:
             seen.add(cls)
             cands = [c for c in BY_NAME.get('%s.%s' % (cls, attr), []) if c.qual == '%s.%s' % (cls, attr)]
+            props = [c for c in cands if c.is_property]
+            if props:
+                return self.apply_contract(props[0], [obj], {}, st, None)
+            cands = [c for c in cands if c.variant != 'setter']
             if cands:
-                if cands[0].is_property:
-                    return self.apply_contract(cands[0], [obj], {}, st, None)
                 return VFunc('method', attr, self_val=obj, extra=cands)
             f = (CLASSES.get(cls) or {}).get('file')
             bases = front.class_bases(f, cls) if f else []
@@ -235,6 +237,8 @@ class Engine(Evaluator):
                 return self.eval_old(node.args[0], st)
             if fn == 'implies':
                 a = self.truth(self.ev(node.args[0], st), st)
+                if st.entails(z3.Not(a)):
+                    return VBool(True)      # antecedent excluded on this path: the consequent need not even be well-typed
                 save = len(st.pc)
                 st.pc.append(a)
                 try:
@@ -299,6 +303,11 @@ class Engine(Evaluator):
                 key = args[0]
                 if not isinstance(key, VStr):
                     raise Unsupported('dict.get with symbolic key')
+                if f.name == 'pop' and key.s in rec.fields:
+                    new = VRec({k: v for k, v in rec.fields.items() if k != key.s})
+                    for n_, v_ in list(st.env.items()):
+                        if v_ is rec:
+                            st.env[n_] = new
                 if key.s in rec.fields:
                     return rec.fields[key.s]
                 return args[1] if len(args) > 1 else VNone()
@@ -499,7 +508,12 @@ class Engine(Evaluator):
         if name == 'iff':
             return VBool(self.truth(args[0], st) == self.truth(args[1], st))
         if name == 'ite':
-            return self.merge_if(self.truth(args[0], st), args[1], args[2], st)
+            c0 = z3.simplify(self.truth(args[0], st))
+            if z3.is_true(c0):
+                return args[1]
+            if z3.is_false(c0):
+                return args[2]
+            return self.merge_if(c0, args[1], args[2], st)
         if name == 'getattr':
             if isinstance(args[1], VDunder) and isinstance(args[0], VList):
                 return VFunc('nddunder', 'dunder', self_val=args[0], extra=args[1].op)
@@ -510,6 +524,10 @@ class Engine(Evaluator):
                     if len(args) > 2:
                         return args[2]
                     raise
+        if name == 'is_list':
+            return VBool(isinstance(args[0], VList))
+        if name == 'is_none':
+            return VBool(isinstance(args[0], VNone))
         if name == 'elems':
             return VFunc('elems', 'elems')
         if name == 'nblocks':
@@ -647,6 +665,10 @@ class Engine(Evaluator):
                 st.heap.objs[r] = c
         for t in tmp.pc[len(st.pc):]:
             st.assume(t)
+        if isinstance(v, VList) and v.ref in st.old['heap'].lists:
+            # a reference into the pre-state: hand out a frozen snapshot of its old content
+            c = st.old['heap'].lists[v.ref]
+            v = VList(st.heap.alloc_list(c.etype, c.length, c.leaves).ref, nd=v.nd)
         return v
 
     # ---- spec functions are inlined (they are definitions, not code under test) ------------------------
@@ -798,8 +820,8 @@ class Engine(Evaluator):
                 st.old = {'env': dict(env), 'heap': st.heap.copy(), 'ghost': {}, 'next_ref': st.heap.next_ref[0]}
                 for n, e in c.let.items():
                     st.env[n] = self.spec_eval(e, st)
-            # havoc what the callee may modify
-            for m in c.modifies:
+            # havoc what the callee may modify (ghost fields assigned by the callee's contract included)
+            for m in list(c.modifies) + [g for g in c.ghost_exit if g not in c.modifies]:
                 self.havoc_target(m, st)
             # result
             if c.result is None:
@@ -813,6 +835,8 @@ class Engine(Evaluator):
             else:
                 res = self.fresh_value(parse_type(c.result) if isinstance(c.result, str) else c.result, c.qual.split('.')[-1] + '.res', st)
             st.env['result'] = res
+            for tgt, e in c.ghost_exit.items():
+                st.assume(self.eq(self.spec_eval(tgt, st), self.spec_eval(e, st), st))
             for lab, e in c.ensures:
                 st.assume(self.spec_truth(e, st))
             return res
@@ -1420,7 +1444,7 @@ class Engine(Evaluator):
 
     def verify(self, c, prop_tag):
         """Symbolically execute the real function of contract c; returns info dict; obligations go to self.obs."""
-        fn, seg, sha, span = front.find_function(c.file, c.qual)
+        fn, seg, sha, span = front.find_function(c.file, c.source or c.qual)
         self.cur = c
         self.cur_func_line = fn.lineno
         nloops = self.number_loops(fn)
@@ -1446,6 +1470,8 @@ class Engine(Evaluator):
                         continue
                     raise front.AttachError('%s: parameter %r has no type in the contract' % (c.key, n))
                 st.env[n] = self.fresh_value(case[n], n, st)
+                if case[n] == 'elem' and 'opt[' in c.params.get(n, ''):
+                    st.assume(st.env[n].t != NONE_ELEM)      # the None case is a separate case
             if fn.args.vararg:
                 vn = fn.args.vararg.arg
                 t = case.get(vn)
@@ -1491,6 +1517,31 @@ class Engine(Evaluator):
             for n, v in entry_env.items():
                 f.env[n] = v
             f.env['result'] = res if res is not None else VNone()
+            for tgt, e in c.ghost_exit.items():
+                v = self.spec_eval(e, f)
+                parts = tgt.split('.')
+                obj = f.env[parts[0]]
+                for p_ in parts[1:-1]:
+                    obj = f.heap.objs[obj.ref][p_]
+                f.heap.objs[obj.ref][parts[-1]] = v
+            for oname in ('self', 'G'):
+                if not (oname in entry_env and isinstance(entry_env[oname], VObj)):
+                    continue
+                so = entry_env[oname]
+                fnames = list(c.fields) if oname == 'self' else list(CLASSES.get('World', {}).get('fields', {}))
+                mod = set(m.split('.', 1)[1] for m in list(c.modifies) + list(c.ghost_exit) if m.startswith(oname + '.'))
+                oldf = f.old['heap'].objs.get(so.ref, {})
+                for fname in fnames:
+                    if fname in mod or fname not in oldf or fname not in f.heap.objs[so.ref]:
+                        continue
+                    a, b = f.heap.objs[so.ref][fname], oldf[fname]
+                    if isinstance(a, (VList, VObj)) or isinstance(b, (VList, VObj)):
+                        t = self.identical(a, b, f) if type(a) is type(b) else z3.BoolVal(False)
+                        if isinstance(a, VList) and isinstance(b, VList) and a.ref == b.ref:
+                            t = self.list_eq_cells(f.heap.lists[a.ref], f.old['heap'].lists[b.ref])
+                    else:
+                        t = self.eq(a, b, f)
+                    self.oblige(f, 'frame', '%s.%s-not-modified' % (oname, fname), t, None)
             for lab, e in c.at_exit:
                 self.oblige(f, 'post', 'at-exit.' + lab, self.spec_truth(e, f), None)
             for lab, e in c.ensures:
